@@ -5,6 +5,7 @@ CONSTANTS
   Spurious = TRUE
   EarlyQuit = TRUE
   MayIgnoreFlag = TRUE
+  Mutant = "none"
   MaxNodes = 4
   WithQuit = TRUE
 INVARIANT Safety
